@@ -385,7 +385,8 @@ static void meta_clear(enc_out *o) {
 static uint64_t *g_decoy;
 static uint32_t *g_decoy32;
 static uint8_t *g_decoy_dst;
-static int g_prime_meta = 1; /* the purity driver builds its histories itself and switches this off */
+static int g_prime_meta = 1;
+static int g_null_meta; /* 1: call the encoders with meta == NULL (their other code path) */ /* the purity driver builds its histories itself and switches this off */
 static void decoy_prepare(int codec, long param, const uint64_t *xs, size_t n) {
     g_decoy = realloc(g_decoy, (n + 1) * 8);
     g_decoy32 = realloc(g_decoy32, (n + 1) * 4);
@@ -429,6 +430,11 @@ static void encode_into(int codec, long param, uint8_t *dst, const uint64_t *xs,
     case C_FOR_BATCH: {
         varintFORMeta m;
         memset(&m, 0, sizeof(m));
+        if (g_null_meta) {
+            o->written = codec == C_FOR ? varintFOREncode(dst, xs, n, NULL)
+                                        : varintFORBatchEncode(dst, xs, n, NULL);
+            break;
+        }
         o->written = codec == C_FOR ? varintFOREncode(dst, xs, n, &m)
                                     : varintFORBatchEncode(dst, xs, n, &m);
         g_formeta = m;
@@ -470,6 +476,11 @@ static void encode_into(int codec, long param, uint8_t *dst, const uint64_t *xs,
         memset(&m, 0x5A, sizeof(m));
         if (g_prime_meta) (void)(codec == C_RLE ? varintRLEEncode(g_decoy_dst, g_decoy, n, &m)
                               : varintRLEEncodeWithHeader(g_decoy_dst, g_decoy, n, &m));
+        if (g_null_meta) {
+            o->written = codec == C_RLE ? varintRLEEncode(dst, xs, n, NULL)
+                                        : varintRLEEncodeWithHeader(dst, xs, n, NULL);
+            break;
+        }
         o->written = codec == C_RLE ? varintRLEEncode(dst, xs, n, &m)
                                     : varintRLEEncodeWithHeader(dst, xs, n, &m);
         o->have_meta = 1;
@@ -484,6 +495,16 @@ static void encode_into(int codec, long param, uint8_t *dst, const uint64_t *xs,
         memset(&m, 0x5A, sizeof(m));
         if (g_prime_meta) (void)(codec == C_GAMMA ? varintEliasGammaEncodeArray(g_decoy_dst, g_decoy, n, &m)
                                 : varintEliasDeltaEncodeArray(g_decoy_dst, g_decoy, n, &m));
+        if (g_null_meta) {
+            /* the bit total is needed by the readers: take it from the sizing API */
+            o->written = codec == C_GAMMA ? varintEliasGammaEncodeArray(dst, xs, n, NULL)
+                                          : varintEliasDeltaEncodeArray(dst, xs, n, NULL);
+            o->bits = 0;
+            for (size_t i = 0; i < n; i++) {
+                o->bits += codec == C_GAMMA ? varintEliasGammaBits(xs[i]) : varintEliasDeltaBits(xs[i]);
+            }
+            break;
+        }
         o->written = codec == C_GAMMA
                          ? varintEliasGammaEncodeArray(dst, xs, n, &m)
                          : varintEliasDeltaEncodeArray(dst, xs, n, &m);
@@ -504,6 +525,13 @@ static void encode_into(int codec, long param, uint8_t *dst, const uint64_t *xs,
                : codec == C_BP64  ? varintBP128Encode64(g_decoy_dst, g_decoy, n, &m)
                : codec == C_BPD32 ? varintBP128DeltaEncode32(g_decoy_dst, g_decoy32, n, &m)
                                   : varintBP128DeltaEncode64(g_decoy_dst, g_decoy, n, &m));
+        if (g_null_meta) {
+            o->written = codec == C_BP32    ? varintBP128Encode32(dst, x32, n, NULL)
+                         : codec == C_BP64  ? varintBP128Encode64(dst, xs, n, NULL)
+                         : codec == C_BPD32 ? varintBP128DeltaEncode32(dst, x32, n, NULL)
+                                            : varintBP128DeltaEncode64(dst, xs, n, NULL);
+            break;
+        }
         o->written =
             codec == C_BP32    ? varintBP128Encode32(dst, x32, n, &m)
             : codec == C_BP64  ? varintBP128Encode64(dst, xs, n, &m)
@@ -522,6 +550,11 @@ static void encode_into(int codec, long param, uint8_t *dst, const uint64_t *xs,
         memset(&m, 0, sizeof(m));
         if (g_prime_meta) (void)(param < 0 ? varintAdaptiveEncode(g_decoy_dst, g_decoy, n, &m)
                          : varintAdaptiveEncodeWith(g_decoy_dst, g_decoy, n, (varintAdaptiveEncodingType)param, &m));
+        if (g_null_meta) {
+            o->written = param < 0 ? varintAdaptiveEncode(dst, xs, n, NULL)
+                                   : varintAdaptiveEncodeWith(dst, xs, n, (varintAdaptiveEncodingType)param, NULL);
+            break;
+        }
         o->written = param < 0 ? varintAdaptiveEncode(dst, xs, n, &m)
                                : varintAdaptiveEncodeWith(
                                      dst, xs, n,
@@ -1223,6 +1256,16 @@ int main(int argc, char **argv) {
         scen_id = idx;
         rng_seed(env_seed() * 1000003ULL + idx);
         scenario(c, param, n, shape, sparam);
+        /* the encoders' meta == NULL path (documented as optional output) is
+         * other code: same scenario, same readers */
+        if ((what & 1) && (c == C_FOR || c == C_FOR_BATCH || c == C_RLE || c == C_RLE_HDR || c == C_GAMMA ||
+                           c == C_EDELTA || c == C_BP32 || c == C_BP64 || c == C_BPD32 || c == C_BPD64 ||
+                           c == C_ADAPTIVE) && n <= 300) {
+            g_null_meta = 1;
+            rng_seed(env_seed() * 1000003ULL + idx);
+            scenario(c, param, n, shape, sparam);
+            g_null_meta = 0;
+        }
     }
     fclose(f);
     tr_close();
